@@ -32,6 +32,13 @@ pub struct Workload {
     /// mapping, 3 non-contiguous (8 MiB hole) - what foreign mappings next to a heap cause
     #[serde(default)]
     pub placement: Vec<u8>,
+    /// once all blocks of the round are allocated: realloc block (index % n) to this size (0 is
+    /// taken as 1), in list order; a block may be resized several times
+    #[serde(default)]
+    pub resize: Vec<(u16, usize)>,
+    /// bit (j % 64): block j is obtained with calloc instead of malloc
+    #[serde(default)]
+    pub zeroed: u64,
 }
 
 const MIB: usize = 1 << 20;
@@ -40,8 +47,10 @@ fn held() -> usize {
     sc::verif::MAPPED.load(Ordering::Relaxed).wrapping_sub(sc::verif::UNMAPPED.load(Ordering::Relaxed))
 }
 
+/// Demand of one round: every block, plus every size a block is resized to (a realloc may hold
+/// the old and the new block at the same time).
 pub fn round_total(w: &Workload) -> usize {
-    w.blocks.iter().map(|b| b.0).sum()
+    w.blocks.iter().map(|b| b.0).sum::<usize>() + w.resize.iter().map(|r| r.1.max(1)).sum::<usize>()
 }
 
 pub fn bound(w: &Workload) -> usize {
@@ -52,7 +61,23 @@ pub fn bound(w: &Workload) -> usize {
 pub fn rounds_for_full_sensitivity(w: &Workload) -> u64 {
     // smallest conceivable loss per round: one smallest block, but never more than one
     // 64 KiB granule (a stranded segment stub), whatever the block sizes are
-    let smallest = w.blocks.iter().map(|b| b.0).min().unwrap_or(1).min(64 << 10);
+    let mut smallest = w.blocks.iter().map(|b| b.0).min().unwrap_or(1).min(64 << 10);
+    // a resize can strand as little as the difference between the two sizes (>= one chunk)
+    let n = w.blocks.len().max(1);
+    let mut cur: Vec<usize> = w.blocks.iter().map(|b| b.0).collect();
+    for &(k, new) in &w.resize {
+        let k = k as usize % n;
+        if let Some(c) = cur.get_mut(k) {
+            let new = new.max(1);
+            let d = c.abs_diff(new);
+            if d >= 32 {
+                smallest = smallest.min(d);
+            }
+            smallest = smallest.min(new);
+            *c = new;
+        }
+    }
+    let smallest = smallest.max(16);
     (2 * bound(w) as u64) / (smallest as u64 + 16) + 2
 }
 
@@ -84,9 +109,25 @@ pub struct RunStats {
 /// Runs the workload; returns Err on a bound violation.
 pub fn run_workload(w: &Workload, op_budget: u64) -> Result<RunStats, Failure> {
     let n = w.blocks.len();
-    let ops_per_round = (2 * n) as u64;
+    let ops_per_round = (2 * n + w.resize.len()) as u64;
     let want = rounds_for_full_sensitivity(w);
-    let cap = (op_budget / ops_per_round.max(1)).max(8);
+    // rounds are also bounded by the bytes a round copies or clears (realloc moves, calloc)
+    let mut work: u64 = 0;
+    {
+        let mut cur: Vec<usize> = w.blocks.iter().map(|b| b.0).collect();
+        for (j, b) in w.blocks.iter().enumerate() {
+            if w.zeroed >> (j % 64) & 1 == 1 {
+                work += b.0 as u64;
+            }
+        }
+        for &(k, new) in &w.resize {
+            let k = k as usize % n.max(1);
+            work += cur[k].min(new.max(1)) as u64;
+            cur[k] = new.max(1);
+        }
+    }
+    let byte_cap = (op_budget * 400) / work.max(1);
+    let cap = (op_budget / ops_per_round.max(1)).min(byte_cap).max(8);
     let rounds = want.min(cap);
     let full = rounds >= want;
     let b = bound(w);
@@ -111,7 +152,8 @@ pub fn run_workload(w: &Workload, op_budget: u64) -> Result<RunStats, Failure> {
         let mut peak = 0usize;
         for j in 0..n {
             let (size, al) = w.blocks[j];
-            let p = match no_panic("malloc", || unsafe { a.malloc(size, 1usize << al.min(13)) }) {
+            let zeroed = w.zeroed >> (j % 64) & 1 == 1;
+            let p = match no_panic("malloc", || unsafe { if zeroed { a.calloc(size, 1usize << al.min(13)) } else { a.malloc(size, 1usize << al.min(13)) } }) {
                 Ok(p) => p,
                 Err(f) => {
                     result = Err(f);
@@ -134,6 +176,33 @@ pub fn run_workload(w: &Workload, op_budget: u64) -> Result<RunStats, Failure> {
                         ptrs[k] = core::ptr::null_mut();
                     }
                 }
+            }
+        }
+        // resizes (grow and shrink in place or by moving)
+        let mut cur: Vec<usize> = w.blocks.iter().map(|b| b.0).collect();
+        for &(k, new) in &w.resize {
+            let k = k as usize % n;
+            let new = new.max(1);
+            if ptrs[k].is_null() {
+                continue;
+            }
+            let (old, al) = (cur[k], 1usize << w.blocks[k].1.min(13));
+            let p = match no_panic("realloc", || unsafe { a.realloc(ptrs[k], old, al, new) }) {
+                Ok(p) => p,
+                Err(f) => {
+                    result = Err(f);
+                    break 'rounds;
+                }
+            };
+            if p.is_null() {
+                result = Err(Failure::new("footprint|realloc returned null without fault injection", format!("round {r}, block {k}: {old} -> {new} bytes")));
+                break 'rounds;
+            }
+            ptrs[k] = p;
+            cur[k] = new;
+            let h = held().wrapping_sub(base);
+            if h > peak {
+                peak = h;
             }
         }
         for &k in &order {
@@ -217,6 +286,26 @@ pub fn check_workload(ctx: &Ctx, w: &Workload) -> CaseResult {
     rep.class_if(large == sizes.len(), "all-large");
     rep.class_if(classes >= 2, "mixed-size-classes");
     rep.class_if(!w.early_free.is_empty(), "interleaved-frees");
+    rep.class_if(!w.resize.is_empty(), "with-realloc");
+    rep.class_if(w.zeroed != 0, "with-calloc");
+    {
+        let n = w.blocks.len().max(1);
+        let mut cur: Vec<usize> = w.blocks.iter().map(|b| b.0).collect();
+        let (mut small_shrink, mut grow) = (false, false);
+        for &(k, new) in &w.resize {
+            let k = k as usize % n;
+            let new = new.max(1);
+            if new < cur[k] && cur[k] - new >= 32 && cur[k] - new < 256 {
+                small_shrink = true;
+            }
+            if new > cur[k] {
+                grow = true;
+            }
+            cur[k] = new;
+        }
+        rep.class_if(small_shrink, "realloc-shrinks-by-32..255-bytes");
+        rep.class_if(grow, "realloc-grows");
+    }
     rep.class_if(w.free_mode >= 2, "shuffled-free-order");
     rep.class_if(!st.full_sensitivity, "low-sensitivity");
     rep.class_if(st.full_sensitivity, "full-sensitivity");
@@ -255,8 +344,27 @@ pub fn workload_strategy() -> impl Strategy<Value = Workload> {
         3 => Just(vec![3u8]),
         2 => prop::collection::vec(0u8..4, 1..6),
     ];
-    (blocks, prop::collection::vec((any::<u16>(), any::<u16>()), 0..8), any::<u64>(), 0u8..3, placement)
-        .prop_map(|(blocks, early_free, free_seed, free_mode, placement)| Workload { blocks, early_free, free_seed, free_mode, placement })
+    // resizes are drawn relative to the block's size: small and large shrinks and growths
+    let rel = prop_oneof![
+        2 => (any::<u16>(), 1usize..32, any::<bool>()),
+        4 => (any::<u16>(), 32usize..300, any::<bool>()),
+        2 => (any::<u16>(), 300usize..5000, any::<bool>()),
+        1 => (any::<u16>(), 5000usize..(300 << 10), any::<bool>()),
+    ];
+    let resizes = prop_oneof![2 => Just(vec![]), 3 => prop::collection::vec(rel, 1..12)];
+    (blocks, prop::collection::vec((any::<u16>(), any::<u16>()), 0..8), any::<u64>(), 0u8..3, placement, resizes, prop_oneof![2 => Just(0u64), 1 => any::<u64>()])
+        .prop_map(|(blocks, early_free, free_seed, free_mode, placement, rel, zeroed)| {
+            let n = blocks.len();
+            let mut cur: Vec<usize> = blocks.iter().map(|b| b.0).collect();
+            let mut resize = Vec::new();
+            for (k, d, grow) in rel {
+                let i = k as usize % n;
+                let new = if grow { cur[i] + d } else { cur[i].saturating_sub(d).max(1) };
+                cur[i] = new;
+                resize.push((k, new));
+            }
+            Workload { blocks, early_free, free_seed, free_mode, placement, resize, zeroed }
+        })
 }
 
 pub fn run(ctx: &Ctx) {
